@@ -165,6 +165,7 @@ type fnCfg struct {
 	extraArgs   string   // the corresponding arguments at call sites
 	rec         bool     // the function calls itself: it takes a fuel argument shared with its loops (mutual structural recursion)
 	callFuel    map[string]string // fuel expression for calls of recursive functions, by callee Go name
+	auto        bool     // a helper without configuration, translated on demand with the defaults of its caller
 }
 
 type golite struct {
@@ -174,6 +175,9 @@ type golite struct {
 	fns     map[string]*fnCfg    // qualified Go function name -> cfg (translated functions)
 	zero    map[string]string    // Lean zero value per Go field type string (for composite literals)
 	stringsAsBytes bool          // Go strings are byte strings (wire level)
+	pending []*fnCfg             // helpers registered on demand, to be emitted before their first user
+	emitted map[*fnCfg]bool
+	tag     string // name of the file being emitted (suffix of its unfold_aux tactic)
 	stringValuesAsBytes bool     // variables of type string are byte strings; string constants stay texts (error messages)
 }
 
